@@ -368,7 +368,7 @@ class CelestialFrame(CoordinateFrame):
             inputs to wcs.input_frame
         """
         if isinstance(args[0], coord.SkyCoord):
-            return args[0].transform_to(self.reference_frame)
+            return args[0].transform_to(self.reference_frame, merge_attributes=False)
         return coord.SkyCoord(*args, unit=self.unit, frame=self.reference_frame)
 
     def coordinate_to_quantity(self, *coords):
@@ -383,7 +383,7 @@ class CelestialFrame(CoordinateFrame):
                              "expected 2, got  {}".format(self.name, len(coords)))
 
         if isinstance(arg, coord.SkyCoord):
-            arg = arg.transform_to(self._reference_frame)
+            arg = arg.transform_to(self._reference_frame, merge_attributes=False)
             try:
                 lon = arg.data.lon
                 lat = arg.data.lat
